@@ -35,6 +35,7 @@ def catalogue(s):
         ln = l["n"]
         D.append({"k": "reverse", "l": ln})
         D.append({"k": "closed", "l": ln})
+        D.append({"k": "ctl_toggle", "l": ln})
         if l["t"] == "pipe":
             for k in ("cv", "K5", "D100", "D600", "C60", "C140", "L50", "L2000"):
                 D.append({"k": k, "l": ln})
@@ -76,6 +77,10 @@ def apply(s, d):
             if l["status"] == "CLOSED":
                 return None
             l["status"] = "CLOSED"
+        elif k == "ctl_toggle":
+            # time controls close the link at 1 h and reopen it at 3 h (whatever lies behind it is cut off and reconnected)
+            s["controls"] = s["controls"] + [{"kind": "time", "t": 3600, "link": l["n"], "value": "CLOSED", "name": "tg0_" + l["n"]},
+                                             {"kind": "time", "t": 3 * 3600, "link": l["n"], "value": "OPEN", "name": "tg1_" + l["n"]}]
         elif l["t"] != "pipe":
             return None
         elif k == "cv":
@@ -198,8 +203,8 @@ def apply(s, d):
 def compatible(d1, d2):
     """two deviations may be combined unless they rewrite the same field."""
     if "l" in d1 and "l" in d2 and d1["l"] == d2["l"]:
-        ok = {"reverse", "closed"}
-        return (d1["k"] in ok or d2["k"] in ok) and d1["k"] != d2["k"]
+        ok = {"reverse", "closed", "ctl_toggle"}
+        return (d1["k"] in ok or d2["k"] in ok) and d1["k"] != d2["k"] and {d1["k"], d2["k"]} != {"closed", "ctl_toggle"}
     if "n" in d1 and "n" in d2 and d1["n"] == d2["n"]:
         grp = lambda d: {"dem2": "dA", "dem0": "d", "demneg": "d", "nodemand_list": "d", "pat1": "d", "pat5": "d", "leak": "lk",
                          "leak_window": "lk", "tleak": "lk", "near_min": "lv", "near_max": "lv"}.get(d["k"], d["k"])
